@@ -216,14 +216,37 @@ def r2(ctx: Ctx) -> None:
     mdns = ctx.repo.func(HR, "_async_resolve_host_zeroconf")
     g = cfg_of(ctx, mdns)
     loops = [n for n in mdns.node.body if isinstance(n, ast.For)]
+    # the IP versions asked for, in evaluation order: constant arguments, or a variable iterating a constant tuple
     vers = []
-    for lp in loops:
-        t = norm(lp.iter)
-        vers.append("V6" if "IPVersion.V6Only" in t else "V4" if "IPVersion.V4Only" in t else "All" if "IPVersion.All" in t else "?")
-    ctx.ob("C20.R2", mdns, "mDNS results: IPv6 addresses are collected before IPv4 addresses", vers == ["V6", "V4"], f"loops over {vers}")
+    iter_consts: dict[str, list[str]] = {}
+    for n in ast.walk(mdns.node):
+        tgt = it = None
+        if isinstance(n, (ast.For, ast.comprehension)):
+            tgt, it = n.target, n.iter
+        if isinstance(tgt, ast.Name) and isinstance(it, (ast.Tuple, ast.List)) and all(isinstance(e, ast.Attribute) and norm(e.value).endswith("IPVersion") for e in it.elts):
+            iter_consts[tgt.id] = [e.attr for e in it.elts]
+    vcalls = sorted([c for c in ast.walk(mdns.node) if isinstance(c, ast.Call) and isinstance(c.func, ast.Attribute) and c.func.attr == "ip_addresses_by_version" and len(c.args) == 1], key=lambda c: (c.lineno, c.col_offset))
+    for c in vcalls:
+        a = c.args[0]
+        if isinstance(a, ast.Attribute) and norm(a.value).endswith("IPVersion"):
+            vers.append(a.attr)
+        elif isinstance(a, ast.Name) and a.id in iter_consts:
+            vers.extend(iter_consts[a.id])
+        else:
+            vers.append(f"?{norm(a)}")
+    ctx.ob("C20.R2", mdns, "mDNS results: IPv6 addresses are collected before IPv4 addresses", vers == ["V6Only", "V4Only"], f"versions asked for, in order: {vers}")
     rets = [n for n in own_nodes(mdns.node) if isinstance(n, ast.Return)]
+    comp_ret = [r for r in rets if isinstance(r.value, ast.ListComp)]
     lists = {norm(r.value) for r in rets if r.value is not None}
     ok = len(lists) == 1
+    if comp_ret and len(rets) == 1:
+        # one comprehension: generators nest version -> address -> converted entry, the entry itself is the element
+        gens = comp_ret[0].value.generators
+        order_ok = [norm(g_.target) for g_ in gens][-1:] == [norm(comp_ret[0].value.elt)] and not any(g_.ifs for g_ in gens)
+        first_is_version = bool(gens) and isinstance(gens[0].target, ast.Name) and gens[0].target.id in iter_consts
+        ctx.ob("C20.R2", mdns, "both loops append to the returned list, nothing reorders it", order_ok and first_is_version, f"returns {norm(comp_ret[0].value)[:100]}")
+        ok = False
+        lists = set()
     if ok:
         lst = next(iter(lists))
         for lp in loops:
@@ -231,7 +254,8 @@ def r2(ctx: Ctx) -> None:
             ok = ok and len(ext) == 1 and any(isinstance(x, ast.Name) and x.id == norm(lp.target) for x in ast.walk(ext[0]))
         bad = [c for c in _calls(mdns) if isinstance(c.func, ast.Attribute) and c.func.attr in ("insert", "sort", "reverse") and norm(c.func.value) == lst]
         ok = ok and not bad
-    ctx.ob("C20.R2", mdns, "both loops append to the returned list, nothing reorders it", ok, f"returns {sorted(lists)}")
+    if not (comp_ret and len(rets) == 1):
+        ctx.ob("C20.R2", mdns, "both loops append to the returned list, nothing reorders it", ok, f"returns {sorted(lists)}")
     # names
     st = ctx.sym.eval(ast.parse("SERVICE_TYPE", mode="eval").body, HR)
     ctx.ob("C20.R2", f"{HR}:SERVICE_TYPE", "service type is _esphomelib._tcp.local.", st == "_esphomelib._tcp.local.", f"{st!r}")
@@ -406,7 +430,13 @@ def r3(ctx: Ctx) -> None:
             ctx.ob("C20.R3", f, st, len(made) == 1 and not others, "the ownership flag becomes true only where the manager itself constructs AsyncZeroconf() (no arguments: not wrapping a supplied Zeroconf)")
             gg = cfg_of(ctx, f)
             evc = occurred_before(gg, lambda n: [f"w:{t.attr}" for t in _attr_targets(n) if t.attr in (inst, flag)])
-            ctx.ob("C20.R3", f, "creation sets instance and flag on every path", {f"w:{inst}", f"w:{flag}"} <= evc.get(gg.exit, frozenset()), "")
+            if f.name != "get_async_zeroconf":
+                ctx.ob("C20.R3", f, "creation sets instance and flag on every path", {f"w:{inst}", f"w:{flag}"} <= evc.get(gg.exit, frozenset()), "")
+            else:
+                # creation inlined into the getter: wherever the flag is set the instance was just created (pairing is
+                # decided by the atomic-pair rule below); here: the instance write precedes or accompanies every flag write
+                fl = [n for n in gg.reachable() if any(t.attr == flag for t in _attr_targets(n))]
+                ctx.ob("C20.R3", f, "creation sets instance and flag on every path", bool(fl) and all(f"w:{inst}" in evc.get(n, frozenset()) or any(t.attr == inst for t in _attr_targets(n)) for n in fl), "the ownership flag is set on a path on which no instance was created")
         else:
             ctx.ob("C20.R3", f, st, False, "unexpected writer of the ownership flag")
     ctx.ob("C20.R3", f"{ZC}:ZeroconfManager", "exactly one place marks an instance as library-created", len(creators) == 1, f"{[f.qualname for f in creators]}")
@@ -447,7 +477,10 @@ def r3(ctx: Ctx) -> None:
     ga = mgr.methods.get("get_async_zeroconf")
     if ga is not None and creators:
         gg = cfg_of(ctx, ga)
-        cn = [n for n in gg.reachable() if any(creators[0] in res.callees(ga, c).funcs for c in node_calls(n))]
+        if creators[0] is ga:
+            cn = [n for n in gg.reachable() if any(t.attr == flag for t in _attr_targets(n))]
+        else:
+            cn = [n for n in gg.reachable() if any(creators[0] in res.callees(ga, c).funcs for c in node_calls(n))]
 
         def clg(n: Node):
             t = n.ast
@@ -459,8 +492,9 @@ def r3(ctx: Ctx) -> None:
 
         tb = truth_table(gg, ["has_instance"], clg, cn)
         ctx.ob("C20.R3", ga, "an instance is created iff none is set (a supplied one is always used)", tb[(False,)] == (True, True) and not tb[(True,)][0], fmt_table(["has_instance"], tb))
-        cs = [(f, c) for f in ctx.repo.all_funcs() for c in _calls(f) if creators[0] in res.callees(f, c).funcs]
-        ctx.ob("C20.R3", creators[0], "the creating function is called only from get_async_zeroconf", all(f is ga for f, c in cs) and len(cs) == 1, f"{[f.qualname for f, c in cs]}")
+        if creators[0] is not ga:
+            cs = [(f, c) for f in ctx.repo.all_funcs() for c in _calls(f) if creators[0] in res.callees(f, c).funcs]
+            ctx.ob("C20.R3", creators[0], "the creating function is called only from get_async_zeroconf", all(f is ga for f, c in cs) and len(cs) == 1, f"{[f.qualname for f, c in cs]}")
     hi = mgr.methods.get("has_instance")
     if hi is not None:
         rets = [n for n in own_nodes(hi.node) if isinstance(n, ast.Return)]
@@ -469,7 +503,15 @@ def r3(ctx: Ctx) -> None:
     gi = ctx.repo.func(HR, "_async_zeroconf_get_service_info")
     gg = cfg_of(ctx, gi)
     mp = gi.param_names()[0]
-    snaps = [n for n in own_nodes(gi.node) if isinstance(n, ast.Assign) and norm(n.value) == f"{mp}.has_instance" and len(n.targets) == 1 and isinstance(n.targets[0], ast.Name)]
+    def _snap_pol(v: ast.expr) -> "bool | None":
+        """Polarity of a snapshot expression: True for `m.has_instance`, False for `not m.has_instance`."""
+        if norm(v) == f"{mp}.has_instance":
+            return True
+        if isinstance(v, ast.UnaryOp) and isinstance(v.op, ast.Not) and norm(v.operand) == f"{mp}.has_instance":
+            return False
+        return None
+
+    snaps = [n for n in own_nodes(gi.node) if isinstance(n, ast.Assign) and _snap_pol(n.value) is not None and len(n.targets) == 1 and isinstance(n.targets[0], ast.Name)]
     ctx.ob("C20.R3", gi, "a snapshot 'had an instance' is taken", len(snaps) == 1, f"{len(snaps)} snapshot(s) of {mp}.has_instance")
     if len(snaps) == 1:
         sv = snaps[0].targets[0].id
@@ -482,9 +524,11 @@ def r3(ctx: Ctx) -> None:
                 if isinstance(c.func, ast.Attribute) and c.func.attr == "async_close":
                     ctx.ob("C20.R3", gi, c, norm(c.func.value) == mp, "the helper must close through the manager, never the instance itself", node=c)
 
+        pol = _snap_pol(snaps[0].value)
+
         def clh(n: Node):
             if isinstance(n.ast, ast.Name) and n.ast.id == sv:
-                return ("had_instance", True)
+                return ("had_instance", bool(pol))
             return None
 
         # after the lookup started (get_async_zeroconf returned), every exit passes the close iff no instance existed before
